@@ -40,9 +40,22 @@ pub struct Plan {
     pub interrupts: Vec<(usize, usize)>,
     /// refill index answered with a non-interrupt error (once)
     pub error_at: Option<usize>,
+    /// which non-interrupt error (index into ERROR_KINDS)
+    pub error_kind: usize,
     /// async: number of Pending answers before refill i (cyclic)
     pub pendings: Vec<usize>,
 }
+
+/// the non-interrupt errors a source may answer with: none of them means "end of input" or "try again" to the reader
+pub const ERROR_KINDS: [io::ErrorKind; 7] = [
+    io::ErrorKind::Other,
+    io::ErrorKind::UnexpectedEof,
+    io::ErrorKind::TimedOut,
+    io::ErrorKind::WouldBlock,
+    io::ErrorKind::BrokenPipe,
+    io::ErrorKind::InvalidData,
+    io::ErrorKind::ConnectionReset,
+];
 
 pub type Log = Rc<RefCell<Vec<EnvEv>>>;
 
@@ -108,7 +121,7 @@ impl Chunked {
         if self.plan.error_at == Some(self.refill_idx) && !self.error_done {
             self.error_done = true;
             self.log.borrow_mut().push(EnvEv::IoError);
-            return Err(io::Error::new(io::ErrorKind::Other, "verif: injected fault"));
+            return Err(io::Error::new(ERROR_KINDS[self.plan.error_kind % ERROR_KINDS.len()], "verif: injected fault"));
         }
         let rest = self.data.len() - self.end;
         let n = if self.cut_idx < self.plan.cuts.len() {
